@@ -81,6 +81,7 @@ def run_signals(pid, tier, seed):
     found = {}
     evals = 0
     n_delivered = 0
+    samples = []
 
     def bad(prop, what, ctx):
         nonlocal found
@@ -164,6 +165,8 @@ def run_signals(pid, tier, seed):
                         shutil.rmtree(proj + "_tmp", ignore_errors=True)
                         continue
                     snap1 = e2e.snapshot(proj)
+                    if len(samples) < 3:
+                        samples.append({"signal": sig, "delivered": ctx["delivered"], "mode": ctx["mode"], "exit": rc})
                     if rc == "timeout":
                         bad("C18,C17", "the run did not terminate after %s" % sig, ctx)
                     elif killed:
@@ -222,5 +225,5 @@ def run_signals(pid, tier, seed):
                 "rule": "%d files x {SIGINT, SIGTERM} delivered (a) by strace injection at the first listing of the source directory, (b) by the LD_PRELOAD shim immediately before the "
                         "n-th filesystem operation of the run from the first operation on a source file on (every one in the thorough tier), (c) as (b) and again before the next operation on "
                         "the lock file (two signals); edit and --check (on a fully referenced tree); lock file in use" % N_FILES,
-                "samples": [], "wall_s": round(time.time() - t0, 1)})
+                "samples": samples, "wall_s": round(time.time() - t0, 1)})
     return res
